@@ -238,6 +238,23 @@ pub struct Target {
     pub max_depth: u8,
 }
 
+/// tactical positions around promotions with capture (queen sacrifices that are refuted or
+/// justified by a capture-promotion, pawns on the seventh next to capturable pieces)
+const TACTICS: &[&str] = &[
+    "r1b3k1/1P3ppp/8/8/8/8/5PPP/3Q2K1 w - - 0 1",
+    "2r3k1/1P1P1ppp/8/8/8/8/5PPP/4Q1K1 w - - 0 1",
+    "3r2k1/2P2ppp/8/8/8/8/5PPP/3R2K1 w - - 0 1",
+    "1r4k1/P4ppp/8/8/8/8/5PPP/1Q4K1 w - - 0 1",
+    "6k1/5ppp/8/8/8/8/1p3PPP/RN4K1 b - - 0 1",
+    "2n3k1/1P3ppp/8/8/8/6p1/5PPP/2R3K1 w - - 0 1",
+    "nn4k1/1P3ppp/8/8/8/8/5PPP/Q5K1 w - - 0 1",
+    "1b1r2k1/2P2ppp/8/8/8/8/5PPP/1Q1R2K1 w - - 0 1",
+    "4k3/8/8/8/8/8/1p1p4/R1B1K3 b - - 0 1",
+    "r3k3/1P6/8/8/8/8/6p1/4K2R w Kq - 0 1",
+    "3q2k1/2P2ppp/8/8/8/8/5PPP/3Q2K1 w - - 0 1",
+    "1q4k1/P1P2ppp/8/8/8/8/5PPP/R5K1 w - - 0 1",
+];
+
 pub fn targets(tier: &str) -> Vec<Target> {
     let thorough = tier == "thorough";
     let mut v = vec![];
@@ -271,6 +288,42 @@ pub fn targets(tier: &str) -> Vec<Target> {
                     h2.push(m2.uci());
                     v.push(Target { name: format!("{}+{}+{}", p.name, m.uci(), m2.uci()), fen: p.fen.to_string(), history: h2, max_depth: 2 });
                 }
+            }
+        }
+    }
+    // the tactical family and its colour mirrors, with all positions one ply away
+    for f in TACTICS {
+        let Ok(p) = super::oracle::Pos::from_fen(f) else { continue };
+        for q in [p.clone(), p.mirror()] {
+            let fen = q.fen();
+            v.push(Target { name: format!("tactic {fen}"), fen: fen.clone(), history: vec![], max_depth: if thorough { 4 } else { 3 } });
+            for m in q.legal_moves() {
+                v.push(Target { name: format!("tactic {fen}+{}", m.uci()), fen: fen.clone(), history: vec![m.uci()], max_depth: if thorough { 3 } else { 2 } });
+            }
+        }
+    }
+    // every explorer seed (the rare-feature positions, the bench positions, the long games)
+    for (k, sd) in super::seeds::all().into_iter().enumerate() {
+        let mirror = sd.name.ends_with("~mirror");
+        if mirror && !thorough {
+            continue;
+        }
+        if sd.prefix.len() > 600 && !thorough {
+            continue;
+        }
+        let d = match (sd.class, thorough) {
+            (super::seeds::Class::Feature, false) => 3,
+            (super::seeds::Class::Feature, true) => 4,
+            (_, false) => 2,
+            (_, true) => 3,
+        };
+        v.push(Target { name: format!("seed {}", sd.name), fen: sd.fen.clone(), history: sd.prefix.clone(), max_depth: d });
+        if sd.class == super::seeds::Class::Feature && sd.prefix.len() < 50 && (thorough || k % 3 == 0) {
+            let Ok((_, pos, _, _)) = super::explore::open_seed(&sd) else { continue };
+            for m in pos.legal_moves() {
+                let mut h = sd.prefix.clone();
+                h.push(m.uci());
+                v.push(Target { name: format!("seed {}+{}", sd.name, m.uci()), fen: sd.fen.clone(), history: h, max_depth: 2 });
             }
         }
     }
